@@ -57,7 +57,7 @@ def strategy_(draw, tier):
       keys = draw(st.lists(st.sampled_from(['a', 'b', 1, 2]), unique=True, max_size=3))
       node = {'k': 'dict', 'keys': keys, 'items': [ref() for _ in keys]}
     else:
-      node = {'k': 'nt', 'type': 'Pair', 'items': [ref(), ref()]}
+      node = {'k': 'nt', 'type': draw(st.sampled_from(['Pair', 'PairSub', 'GenericNT'])), 'items': [ref(), ref()]}
     nodes.append(node)
   fnspec = draw(recipes.fnspecs())
   nav = len(nodes)
